@@ -28,7 +28,17 @@ DATA = {"x": [(11, 1), (12, 2), (13, 3)], "y": [(1, 31), (2, 32), (4, 34)], "z":
 ENG_SCHEMA = {t: {c: "INT" for c in cols} for t, cols in COLS.items()}
 
 
+COLLIDE = {"db": {"Xx": {"Xx": "INT", "b": "INT"}, "b": {"Xx": "INT"}}}
+COLLIDE_QUERIES = [("c.star", "SELECT * FROM db.Xx"), ("c.col", "SELECT Xx FROM db.Xx"), ("c.qualified", "SELECT Xx.Xx, b FROM db.Xx"),
+                   ("c.alias", "SELECT t.Xx FROM db.Xx AS t"), ("c.join", "SELECT Xx.Xx, b.Xx FROM db.Xx JOIN db.b ON Xx.b = b.Xx"),
+                   ("c.lower", "SELECT xx FROM db.Xx"), ("c.where", "SELECT b FROM db.Xx WHERE Xx = 1")]
+
+
 def schema_for(depth):
+    if depth == "collide":
+        import copy
+
+        return copy.deepcopy(COLLIDE)
     s = {t: {c: "INT" for c in cols} for t, cols in COLS.items()}
     if depth == 2:
         return {"db": s}
@@ -198,10 +208,31 @@ def worker(shard, nshards, plan):
                 continue
             res["evaluations"] += 1
             kw = dict(schema=schema, dialect=dialect or None)
-            if depth >= 2:
+            if depth == "collide":
+                pass
+            elif depth >= 2:
                 kw["db"] = "db"
             if depth == 3:
                 kw["catalog"] = "cat"
+            if depth == "collide":
+                # a fresh MappingSchema per query and, as a history, one shared schema object over all queries:
+                # answers must not depend on which names the schema normalised earlier
+                from sqlglot.schema import MappingSchema
+                shared = res.setdefault("_shared_" + (dialect or "base"), MappingSchema(schema_for("collide"), dialect=dialect or None))
+                try:
+                    a1 = qualify(tree.copy(), schema=MappingSchema(schema_for("collide"), dialect=dialect or None), dialect=dialect or None).sql(dialect or None)
+                except SqlglotError as e:
+                    a1 = "ERR:" + type(e).__name__
+                except Exception as e:
+                    a1 = "CRASH:" + type(e).__name__
+                try:
+                    a2 = qualify(tree.copy(), schema=shared, dialect=dialect or None).sql(dialect or None)
+                except SqlglotError as e:
+                    a2 = "ERR:" + type(e).__name__
+                except Exception as e:
+                    a2 = "CRASH:" + type(e).__name__
+                if a1 != a2:
+                    record(f"schema_history|{'+'.join(tags)}", dialect, sql, f"qualify with a schema object that served earlier queries gives `{a2}`, with a fresh schema `{a1}`")
             try:
                 q1 = qualify(tree.copy(), **kw)
             except OptimizeError:
@@ -221,7 +252,11 @@ def worker(shard, nshards, plan):
             for code, msg in check_qualified(q1, D):
                 record(f"{code}|{'+'.join(tags)}", dialect, sql, f"{msg} in `{t1}`")
             # star expansion order
-            if tags and tags[0] in ("star", "star_derived", "star_join", "star_using", "tstar", "star_exclude", "star_replace", "union_derived_star"):
+            if depth == "collide" and tags[0] == "c.star":
+                got = [n.lower() for n in q1.named_selects]
+                if got != ["xx", "b"]:
+                    record("star_order|c.star", dialect, sql, f"star expanded to {q1.named_selects}, schema order gives ['Xx', 'b']")
+            elif tags and tags[0] in ("star", "star_derived", "star_join", "star_using", "tstar", "star_exclude", "star_replace", "union_derived_star"):
                 want = {"star": ["a", "b"], "star_derived": ["b", "a"], "star_join": ["a", "b", "b", "c"], "star_using": ["b", "a", "c"],
                         "tstar": ["a", "b", "c"], "star_exclude": ["b"], "star_replace": ["a", "b"], "union_derived_star": ["a"]}[tags[0]]
                 try:
@@ -278,6 +313,8 @@ def worker(shard, nshards, plan):
             if len(res["samples"]) < 2 and idx % 173 == shard:
                 res["samples"].append({"dialect": dialect or "base", "sql": sql, "qualified": t1})
     duck.close()
+    for k in [k for k in res if k.startswith("_shared_")]:
+        del res[k]
     res["viol"] = list(res["viol"].items())
     return res
 
@@ -334,6 +371,9 @@ def run(ctx: Ctx) -> None:
                 if sp != "lower" and Dialect.get_or_raise(d or None).NORMALIZATION_STRATEGY == NormalizationStrategy.CASE_SENSITIVE:
                     continue  # a differently-cased name is a different (unknown) table in a case-sensitive dialect
                 plan.append((d, depth, sp, items))
+    collide_items = [(1, q, (t,)) for t, q in COLLIDE_QUERIES]
+    for d in dialects:
+        plan.append((d, "collide", "lower", collide_items))
     res = ctx.run_shards(worker, ctx.jobs * 3, plan)
     nres = ctx.run_shards(norm_worker, ctx.jobs, reps if quick else [""] + corpus.all_dialects(), quick)
     viol = {}
